@@ -122,25 +122,41 @@ structure Refines (b : OB) (g : G) : Prop where
 
 theorem OB.slide_res (b : OB) (now : Nat) : (b.slide now).res = b.res := rfl
 theorem OB.slide_limit (b : OB) (now : Nat) : (b.slide now).limit = b.limit := rfl
-theorem OB.slide_updated (b : OB) (now : Nat) : (b.slide now).updated = now := by
-  simp [OB.slide, slideUpdatedUnconditional, slideUpdated]
 theorem OB.slide_counts (b : OB) (now : Nat) : (b.slide now).counts = shiftL (b.shiftBy now) b.counts := by
   simp only [OB.slide]
   exact slide_counts_eq _ _
 
-/-- **tie to the generated clamp**: `if len(b.counts) < ticks { ticks = len(b.counts) }` is `min` -/
+/-- **tie to the generated clamp**: `if len(b.counts) < ticks { ticks = len(b.counts) … }` is `min` -/
 theorem clampTicks_eq_min (len r : Nat) : clampTicks len r = min r len := by
   unfold clampTicks
   by_cases h1 : len < r
   · simp [h1]; omega
   · simp [h1]; omega
 
+/-- **tie to the generated assignments of `b.updated` in `slide`**: `now` when more than `len(b.counts)` ticks have
+passed (everything has aged out), else `updated + ticks·resolution` — never `now` otherwise -/
+theorem slideUpdated_eq (updated now len raw res : Nat) :
+    slideUpdated updated now len raw res = if len < raw then now else updated + raw * res := by
+  unfold slideUpdated
+  by_cases h : len < raw <;> simp [h]
+
+/-- **tie to the generated assignment of `b.updated` in `Do`**: an admission sets `updated := now` -/
+theorem admitUpdated_eq (updated now : Nat) : admitUpdated updated now = now := rfl
+
+theorem OB.slide_updated (b : OB) (now : Nat) :
+    (b.slide now).updated = if b.counts.length < b.rawAt now then now else b.updated + b.rawAt now * b.res := by
+  simp only [OB.slide]
+  exact slideUpdated_eq _ _ _ _ _
+
+theorem rawAt_eq (b : OB) (g : G) (h : Refines b g) (now : Nat) : b.rawAt now = (now - g.updated) / g.res := by
+  unfold OB.rawAt
+  rw [h.res, h.updated]
+  rfl
+
 theorem shiftBy_eq (b : OB) (g : G) (h : Refines b g) (now : Nat) :
     b.shiftBy now = min ((now - g.updated) / g.res) g.ticks := by
   unfold OB.shiftBy
-  rw [h.counts, countsOf_length, h.res, h.updated]
-  rw [clampTicks_eq_min]
-  rfl
+  rw [rawAt_eq b g h, h.counts, countsOf_length, clampTicks_eq_min]
 
 theorem slide_refines (b : OB) (g : G) (h : Refines b g) (now : Nat) : Refines (b.slide now) (g.slide now) := by
   refine ⟨?_, ?_, ?_, ?_, h.tpos⟩
@@ -148,7 +164,8 @@ theorem slide_refines (b : OB) (g : G) (h : Refines b g) (now : Nat) : Refines (
     rfl
   · rw [OB.slide_res, h.res]; rfl
   · rw [OB.slide_limit, h.limit]; rfl
-  · rw [OB.slide_updated]; rfl
+  · rw [OB.slide_updated, rawAt_eq b g h, h.counts, countsOf_length, h.res, h.updated]
+    rfl
 
 theorem total_refines (b : OB) (g : G) (h : Refines b g) : b.total = g.total := by
   unfold OB.total G.total
@@ -167,38 +184,53 @@ theorem call_refines (b : OB) (g : G) (h : Refines b g) (now : Nat) :
   simp only [hdec]
   by_cases hc : (g.slide now).total < (g.slide now).limit
   · simp only [hc, decide_true, if_true, and_true]
-    refine ⟨?_, hs.res, hs.limit, hs.updated, hs.tpos⟩
+    refine ⟨?_, hs.res, hs.limit, admitUpdated_eq (b.slide now).updated now, hs.tpos⟩
     show goIncrAt (b.slide now).counts incrIndex = countsOf ((now, 0) :: (g.slide now).all) (g.slide now).ticks
     rw [hs.counts]
     exact goIncrAt_countsOf _ _ _
   · simp only [hc, decide_false, if_false, and_true]
     exact hs
 
-theorem call_updated (b : OB) (now : Nat) : (b.call now).1.updated = now := by
-  unfold OB.call
-  simp only []
-  split <;> simp [OB.slide_updated]
+/-- one arrival (call or poll) -/
+theorem stepEv_refines (b : OB) (g : G) (h : Refines b g) (e : BEv) :
+    Refines (b.stepEv e).1 (g.step e) ∧
+    (b.stepEv e).2 = (match e with
+      | .call t => decide ((g.slide t).total < (g.slide t).limit)
+      | .status _ => false) := by
+  cases e with
+  | call t => exact call_refines b g h t
+  | status t => exact ⟨slide_refines b g h t, rfl⟩
 
 theorem gcall_adm (g : G) (now : Nat) :
     (g.call now).adm = if (g.slide now).total < (g.slide now).limit then now :: g.adm else g.adm := by
-  have hadm : (g.slide now).adm = g.adm := by simp [G.slide, G.adm, List.map_map, Function.comp_def]
   unfold G.call
   simp only []
   split
   · show now :: (g.slide now).adm = now :: g.adm
-    rw [hadm]
-  · exact hadm
+    rw [G.slide_adm]
+  · exact G.slide_adm g now
 
 /-- the admitted times of the real model are the admission list of the ghost -/
-theorem admitted_refines (b : OB) (g : G) (h : Refines b g) (ts : List Nat) :
-    OB.admitted.go b ts g.adm = (g.run ts).adm := by
-  induction ts generalizing b g with
+theorem admitted_refines (b : OB) (g : G) (h : Refines b g) (es : List BEv) :
+    OB.admittedEv.go b es g.adm = (g.run es).adm := by
+  induction es generalizing b g with
   | nil => rfl
-  | cons t ts ih =>
-    have hc := call_refines b g h t
-    simp only [OB.admitted.go, G.run]
-    rw [← ih _ _ hc.1, gcall_adm, hc.2]
-    by_cases hlt : (g.slide t).total < (g.slide t).limit <;> simp [hlt]
+  | cons e es ih =>
+    have hc := stepEv_refines b g h e
+    simp only [OB.admittedEv.go, G.run]
+    rw [← ih _ _ hc.1, hc.2]
+    cases e with
+    | call t =>
+      simp only [G.step, gcall_adm, BEv.time]
+      by_cases hlt : (g.slide t).total < (g.slide t).limit <;> simp [hlt]
+    | status t =>
+      simp only [G.step, G.slide_adm]
+      rfl
+
+theorem after_refines (b : OB) (g : G) (h : Refines b g) (es : List BEv) : Refines (b.afterEv es) (g.run es) := by
+  induction es generalizing b g with
+  | nil => exact h
+  | cons e es ih => exact ih _ _ (stepEv_refines b g h e).1
 
 /-- the ghost that corresponds to a breaker whose counts are all zero -/
 def ghost0 (b : OB) : G := { limit := b.limit, res := b.res, ticks := b.ticks, all := [], updated := b.updated }
@@ -216,56 +248,35 @@ theorem binv_ghost0 (b : OB) (hr : 0 < b.res) : BInv (ghost0 b) := by
   · intro newer t older he
     simp [ghost0, G.adm] at he
 
-/-- window bound for the real `counts` model started from all-zero counts -/
-theorem window_counts (b : OB) (hz : b.counts = List.replicate b.ticks 0) (ht : 0 < b.ticks) (hr : 0 < b.res)
-    (ts : List Nat) (hmono : (b.updated :: ts).Pairwise (· ≤ ·)) (a : Nat) :
-    ((b.admitted ts).filter (fun t => a ≤ t ∧ t < a + b.ticks * b.res)).length ≤ b.limit := by
-  have h := admitted_refines b (ghost0 b) (refines_zero b hz ht) ts
-  have hw := breaker_window (ghost0 b) ts (binv_ghost0 b hr) hmono a
-  unfold OB.admitted
+theorem linv_ghost0 (b : OB) : LInv (ghost0 b) := by
+  constructor
+  · simp [ghost0]
+  · intro j p hp; simp [ghost0] at hp
+
+theorem admittedEv_ghost (b : OB) (hz : b.counts = List.replicate b.ticks 0) (ht : 0 < b.ticks) (es : List BEv) :
+    b.admittedEv es = ((ghost0 b).run es).adm := by
+  have h := admitted_refines b (ghost0 b) (refines_zero b hz ht) es
   have : (ghost0 b).adm = [] := rfl
   rw [this] at h
-  rw [h]
-  exact hw
+  exact h
 
-/-! ## fast polling never recovers -/
+/-- window bound for the real `counts` model started from all-zero counts, for calls and polls -/
+theorem window_counts (b : OB) (hz : b.counts = List.replicate b.ticks 0) (ht : 0 < b.ticks) (hr : 0 < b.res)
+    (es : List BEv) (hmono : (b.updated :: es.map BEv.time).Pairwise (· ≤ ·)) (a : Nat) :
+    ((b.admittedEv es).filter (fun t => a ≤ t ∧ t < a + b.ticks * b.res)).length ≤ b.limit := by
+  rw [admittedEv_ghost b hz ht]
+  exact breaker_window (ghost0 b) es (binv_ghost0 b hr) hmono a
 
-theorem shiftL_zero (cs : List Nat) : shiftL 0 cs = cs := by
-  unfold shiftL
-  apply List.ext_getElem
-  · simp
-  · intro i h1 h2
-    simp [List.getD, List.getElem?_eq_getElem h2]
+theorem map_call_time (ts : List Nat) : (ts.map BEv.call).map BEv.time = ts := by
+  induction ts with
+  | nil => rfl
+  | cons t ts ih => simp [BEv.time, ih]
+
+/-! ## bookkeeping -/
 
 theorem shiftL_length (k : Nat) (cs : List Nat) : (shiftL k cs).length = cs.length := by simp [shiftL]
 
 theorem goIncrAt_length (cs : List Nat) (i : Nat) : (goIncrAt cs i).length = cs.length := by simp [goIncrAt]
-
-theorem goIncrAt_zero_cons (c : Nat) (cs : List Nat) : goIncrAt (c :: cs) 0 = (c + 1) :: cs := by
-  unfold goIncrAt
-  apply List.ext_getElem
-  · simp
-  · intro i h1 h2
-    cases i with
-    | zero => simp
-    | succ i =>
-      have h3 : i < cs.length := by simpa using h2
-      simp [List.getD, List.getElem?_eq_getElem h3]
-
-theorem goIncrAt_sum (cs : List Nat) (h : 0 < cs.length) : (goIncrAt cs 0).sum = cs.sum + 1 := by
-  cases cs with
-  | nil => simp at h
-  | cons c cs => rw [goIncrAt_zero_cons]; simp; omega
-
-theorem slide_fast (b : OB) (now : Nat) (h : now - b.updated < b.res) : (b.slide now).counts = b.counts := by
-  rw [OB.slide_counts]
-  have : b.shiftBy now = 0 := by
-    unfold OB.shiftBy
-    rw [clampTicks_eq_min]
-    simp only [rawTicks, elapsed]
-    rw [Nat.div_eq_of_lt h]
-    simp
-  rw [this, shiftL_zero]
 
 theorem call_counts_length (b : OB) (now : Nat) : (b.call now).1.counts.length = b.counts.length := by
   unfold OB.call
@@ -284,69 +295,28 @@ theorem call_limit (b : OB) (now : Nat) : (b.call now).1.limit = b.limit := by
   simp only []
   split <;> rfl
 
-/-- a call that comes less than one tick after the previous one sees exactly the previous counts -/
-theorem call_fast (b : OB) (now : Nat) (h : now - b.updated < b.res) (hl : 0 < b.counts.length) :
-    (b.call now).2 = decide (b.total < b.limit) ∧
-    (b.call now).1.total = (if b.total < b.limit then b.total + 1 else b.total) := by
-  have hs := slide_fast b now h
-  have ht : (b.slide now).total = b.total := by unfold OB.total; rw [hs]
+theorem call_ticks (b : OB) (now : Nat) : (b.call now).1.ticks = b.ticks := by
   unfold OB.call
-  simp only [admitTest, ht, OB.slide_limit]
-  by_cases hc : b.total < b.limit
-  · simp only [hc, decide_true, if_true, true_and]
-    show (goIncrAt (b.slide now).counts incrIndex).sum = b.total + 1
-    rw [hs]
-    exact goIncrAt_sum _ hl
-  · simp only [hc, decide_false, if_false, true_and]
-    exact ht
+  simp only []
+  split <;> rfl
 
-theorem admitted_fast (b : OB) (ts : List Nat) (acc : List Nat) (hl : 0 < b.counts.length)
-    (hf : FastPolled b.res b.updated ts) :
-    (OB.admitted.go b ts acc).length = acc.length + min ts.length (b.limit - b.total) := by
-  induction ts generalizing b acc with
-  | nil => simp [OB.admitted.go]
-  | cons t ts ih =>
-    obtain ⟨_, hgap, hrest⟩ := hf
-    have hc := call_fast b t hgap hl
-    simp only [OB.admitted.go]
-    have hl' : 0 < (b.call t).1.counts.length := by rw [call_counts_length]; exact hl
-    have hrest' : FastPolled (b.call t).1.res (b.call t).1.updated ts := by
-      rw [call_res, call_updated]; exact hrest
-    rw [ih _ _ hl' hrest', hc.1, hc.2, call_limit]
-    by_cases hlt : b.total < b.limit
-    · simp only [hlt, decide_true, if_true, List.length_cons]; omega
-    · simp only [hlt, decide_false, if_false]
-      simp only [Bool.false_eq_true, if_false, List.length_cons]; omega
+theorem stepEv_fields (b : OB) (e : BEv) :
+    (b.stepEv e).1.counts.length = b.counts.length ∧ (b.stepEv e).1.res = b.res ∧ (b.stepEv e).1.limit = b.limit ∧
+      (b.stepEv e).1.ticks = b.ticks := by
+  cases e with
+  | call t => exact ⟨call_counts_length b t, call_res b t, call_limit b t, call_ticks b t⟩
+  | status t => exact ⟨by simp [OB.stepEv, OB.status, OB.slide_counts, shiftL_length], rfl, rfl, rfl⟩
 
-theorem shiftL_replicate_zero (k n : Nat) : shiftL k (List.replicate n 0) = List.replicate n 0 := by
-  unfold shiftL
-  apply List.ext_getElem
-  · simp
-  · intro i h1 h2
-    simp only [List.getElem_map, List.getElem_range, List.getElem_replicate]
-    split
-    · rfl
-    · simp only [List.getD, List.getElem?_replicate]
-      split <;> rfl
-
-/-- the first call on a fresh breaker -/
-theorem call_fresh (b : OB) (now : Nat) (hz : b.counts = List.replicate b.counts.length 0) (hl : 0 < b.counts.length) :
-    (b.call now).2 = decide (0 < b.limit) ∧ (b.call now).1.total = (if 0 < b.limit then 1 else 0) := by
-  have hs : (b.slide now).counts = b.counts := by
-    rw [OB.slide_counts, hz, shiftL_replicate_zero]
-  have h0 : b.total = 0 := by unfold OB.total; rw [hz]; simp
-  have ht : (b.slide now).total = 0 := by unfold OB.total; rw [hs]; exact h0
-  unfold OB.call
-  simp only [admitTest, ht, OB.slide_limit]
-  by_cases hc : 0 < b.limit
-  · simp only [hc, decide_true, if_true, true_and]
-    show (goIncrAt (b.slide now).counts incrIndex).sum = 1
-    rw [hs]
-    have := goIncrAt_sum b.counts hl
-    unfold OB.total at h0
-    rw [incrIndex, this, h0]
-  · simp only [hc, decide_false, if_false, true_and]
-    exact ht
+theorem afterEv_fields (b : OB) (es : List BEv) :
+    (b.afterEv es).counts.length = b.counts.length ∧ (b.afterEv es).res = b.res ∧ (b.afterEv es).limit = b.limit ∧
+      (b.afterEv es).ticks = b.ticks := by
+  induction es generalizing b with
+  | nil => exact ⟨rfl, rfl, rfl, rfl⟩
+  | cons e es ih =>
+    obtain ⟨e1, e2, e3, e4⟩ := stepEv_fields b e
+    have := ih (b.stepEv e).1
+    simp only [OB.afterEv]
+    exact ⟨this.1.trans e1, this.2.1.trans e2, this.2.2.1.trans e3, this.2.2.2.trans e4⟩
 
 /-! ## concurrent callers: every schedule is a sequential run of `call` at the lock-acquisition clock readings -/
 
@@ -401,7 +371,7 @@ theorem step_cases (s : DoSys) (h : ThreadsOK s) (tid clk : Nat) :
 
 theorem exec_sequential (s : DoSys) (h : ThreadsOK s) (sch : List (Nat × Nat)) :
     ∃ ts, ts.Sublist (sch.map (·.2)) ∧ (s.exec sch).b = s.b.after ts ∧
-      (s.exec sch).admitted = OB.admitted.go s.b ts s.admitted := by
+      (s.exec sch).admitted = OB.admittedEv.go s.b (ts.map .call) s.admitted := by
   induction sch generalizing s with
   | nil => exact ⟨[], List.Sublist.refl _, rfl, rfl⟩
   | cons e sch ih =>
@@ -418,8 +388,8 @@ theorem exec_sequential (s : DoSys) (h : ThreadsOK s) (sch : List (Nat × Nat)) 
       · rw [hadm, e1]
         unfold DoSys.admitted
         rw [e2]
-        simp only [OB.admitted.go, List.filter_cons]
-        cases (s.b.call clk).2 <;> simp
+        simp only [List.map_cons, OB.admittedEv.go, OB.stepEv, BEv.time, List.filter_cons]
+        by_cases hcl : (s.b.call clk).2 = true <;> simp [hcl]
 
 theorem start_ok (b : OB) (calls : List Nat) : ThreadsOK (DoSys.start b calls) := by
   intro th hth
@@ -427,140 +397,69 @@ theorem start_ok (b : OB) (calls : List Nat) : ThreadsOK (DoSys.start b calls) :
   obtain ⟨n, _, rfl⟩ := hth
   exact Or.inl rfl
 
-/-! ## recovery when polled slower than a tick (or in bursts): every counted admission is younger than two windows -/
+/-! ## recovery -/
 
-/-- upper bound on the age of an admission still counted: the shifts lose less than half of the elapsed time -/
-def UB (g : G) : Prop := ∀ p ∈ g.all, p.2 < g.ticks → g.updated ≤ p.1 + 2 * (p.2 * g.res)
+/-- the hypotheses every recovery statement shares: a breaker with all-zero counts, a non-decreasing sequence of calls
+and polls `pre`, then a call at `now`; gives the ghost state before that call with its invariants -/
+theorem ghost_before_call (b : OB) (hz : b.counts = List.replicate b.ticks 0) (ht : 0 < b.ticks) (hr : 0 < b.res)
+    (pre : List BEv) (now : Nat) (hmono : (b.updated :: (pre.map BEv.time ++ [now])).Pairwise (· ≤ ·)) :
+    Refines (b.afterEv pre) ((ghost0 b).run pre) ∧ LInv ((ghost0 b).run pre) ∧ ((ghost0 b).run pre).updated ≤ now ∧
+      ((ghost0 b).run pre).res = b.res ∧ ((ghost0 b).run pre).ticks = b.ticks ∧ ((ghost0 b).run pre).limit = b.limit := by
+  have hR := after_refines b _ (refines_zero b hz ht) pre
+  have hm1 : ((ghost0 b).updated :: pre.map BEv.time).Pairwise (· ≤ ·) :=
+    hmono.sublist (List.Sublist.cons_cons b.updated (List.sublist_append_left _ [now]))
+  have hL := run_linv (ghost0 b) pre b.updated (binv_ghost0 b hr) (linv_ghost0 b) (Nat.le_refl _) hm1
+  have hI := run_inv (ghost0 b) pre b.updated (binv_ghost0 b hr) (Nat.le_refl _) hm1
+  obtain ⟨e1, e2, e3⟩ := G.run_fields (ghost0 b) pre
+  refine ⟨hR, hL, ?_, e1, e2, e3⟩
+  refine Nat.le_trans hI.2 ?_
+  have hall : ∀ x ∈ b.updated :: pre.map BEv.time, x ≤ now := by
+    intro x hx
+    have hp := List.pairwise_append.mp (by simpa using hmono : ((b.updated :: pre.map BEv.time) ++ [now]).Pairwise (· ≤ ·))
+    exact hp.2.2 x hx now (List.mem_singleton.mpr rfl)
+  exact hall _ (List.getLast_mem _)
 
-theorem slide_ub (g : G) (now : Nat) (h : UB g) (hr : 0 < g.res) (hn : g.updated ≤ now)
-    (hgap : now = g.updated ∨ g.res ≤ now - g.updated) : UB (g.slide now) := by
-  intro p hp hlt
-  simp only [G.slide, List.mem_map] at hp
-  obtain ⟨q, hq, rfl⟩ := hp
-  have hlt' : q.2 + min ((now - g.updated) / g.res) g.ticks < g.ticks := hlt
-  show now ≤ q.1 + 2 * ((q.2 + min ((now - g.updated) / g.res) g.ticks) * g.res)
-  clear hlt
-  have hdm := Nat.div_add_mod (now - g.updated) g.res
-  have hml := Nat.mod_lt (now - g.updated) hr
-  have hkpos : g.res ≤ now - g.updated → 0 < (now - g.updated) / g.res := fun hge => Nat.div_pos hge hr
-  generalize (now - g.updated) / g.res = k at *
-  generalize (now - g.updated) % g.res = r at *
-  have hk : min k g.ticks = k := by
-    have : k < g.ticks := by
-      rw [Nat.min_def] at hlt'; split at hlt' <;> omega
-    exact Nat.min_eq_left (Nat.le_of_lt this)
-  rw [hk] at hlt' ⊢
-  have hq2 : q.2 < g.ticks := by omega
-  have hold := h q hq hq2
-  rw [Nat.add_mul]
-  rcases hgap with rfl | hge
-  · omega
-  · have hB : g.res ≤ k * g.res := Nat.le_mul_of_pos_left _ (hkpos hge)
-    rw [Nat.mul_comm] at hdm
-    generalize k * g.res = B at *
-    generalize q.2 * g.res = A at *
-    omega
-
-theorem call_ub (g : G) (now : Nat) (h : UB g) (hr : 0 < g.res) (hn : g.updated ≤ now)
-    (hgap : now = g.updated ∨ g.res ≤ now - g.updated) : UB (g.call now) := by
-  have hs := slide_ub g now h hr hn hgap
-  unfold G.call
-  simp only []
-  split
-  · intro p hp hlt
-    simp only [List.mem_cons] at hp
-    rcases hp with rfl | hp
-    · show (g.slide now).updated ≤ _
-      simp [G.slide]
-    · exact hs p hp hlt
-  · exact hs
-
-theorem gcall_fields (g : G) (now : Nat) :
-    (g.call now).updated = now ∧ (g.call now).res = g.res ∧ (g.call now).ticks = g.ticks ∧ (g.call now).limit = g.limit := by
-  unfold G.call; simp only []; split <;> exact ⟨rfl, rfl, rfl, rfl⟩
-
-theorem ghost_recovers (g : G) (pre : List Nat) (now : Nat) (h : UB g) (hr : 0 < g.res)
-    (hs : SlowPolled g.res g.updated (pre ++ [now])) :
-    ((g.run pre).slide now).total ≤ windowCount (2 * g.W) (g.run pre).adm now := by
-  induction pre generalizing g with
-  | nil =>
-    simp only [List.nil_append, SlowPolled] at hs
-    obtain ⟨hn, hgap, _⟩ := hs
-    have hu := slide_ub g now h hr hn (by omega)
-    simp only [G.run]
-    have hadm : (g.slide now).adm = g.adm := by simp [G.slide, G.adm, List.map_map, Function.comp_def]
-    rw [← hadm]
-    unfold windowCount G.total G.adm
-    rw [List.filter_map, List.length_map]
-    apply filter_len_mono
-    intro p hp hlt
-    simp only [decide_eq_true_eq] at hlt
-    have hb := hu p hp hlt
-    have hup : (g.slide now).updated = now := rfl
-    have ht : (g.slide now).ticks = g.ticks := rfl
-    have hres : (g.slide now).res = g.res := rfl
-    rw [hup, hres] at hb
-    rw [ht] at hlt
-    simp only [Function.comp_apply, G.W]
-    refine decide_eq_true ?_
-    have h1 : p.2 * g.res + g.res ≤ g.ticks * g.res := by
-      have : (p.2 + 1) * g.res ≤ g.ticks * g.res := Nat.mul_le_mul_right _ hlt
-      rw [Nat.add_mul] at this; omega
-    generalize p.2 * g.res = A at *
-    generalize g.ticks * g.res = B at *
-    omega
-  | cons t pre ih =>
-    simp only [List.cons_append, SlowPolled] at hs
-    obtain ⟨hn, hgap, hrest⟩ := hs
-    obtain ⟨e1, e2, e3, e4⟩ := gcall_fields g t
-    have hu := call_ub g t h hr hn (by omega)
-    have := ih (g.call t) hu (by rw [e2]; exact hr) (by rw [e1, e2]; exact hrest)
-    simp only [G.run]
-    have hW : (g.call t).W = g.W := by simp [G.W, e2, e3]
-    rw [hW] at this
-    exact this
-
-theorem after_refines (b : OB) (g : G) (h : Refines b g) (ts : List Nat) : Refines (b.after ts) (g.run ts) := by
-  induction ts generalizing b g with
-  | nil => exact h
-  | cons t ts ih => exact ih _ _ (call_refines b g h t).1
-
-theorem after_limit (b : OB) (ts : List Nat) : (b.after ts).limit = b.limit := by
-  induction ts generalizing b with
-  | nil => rfl
-  | cons t ts ih => simp only [OB.after]; rw [ih, call_limit]
-
-theorem recovers_slow (b : OB) (hz : b.counts = List.replicate b.ticks 0) (ht : 0 < b.ticks) (hr : 0 < b.res)
-    (pre : List Nat) (now : Nat) (hs : SlowPolled b.res b.updated (pre ++ [now]))
-    (hfew : ((b.admitted pre).filter (fun t => now < t + 2 * (b.ticks * b.res))).length < b.limit) :
-    ((b.after pre).call now).2 = true := by
-  have hR := refines_zero b hz ht
-  have hA := after_refines b _ hR pre
-  have hc := (call_refines _ _ hA now).2
-  have hadm := admitted_refines b _ hR pre
-  have hub : UB (ghost0 b) := by intro p hp; simp [ghost0] at hp
-  have hg := ghost_recovers (ghost0 b) pre now hub hr hs
-  rw [hc]
+/-- **idle recovery**: whatever calls and polls came before, a call is admitted when every earlier admission is at
+least one window old -/
+theorem recovers_counts (b : OB) (hz : b.counts = List.replicate b.ticks 0) (ht : 0 < b.ticks) (hr : 0 < b.res)
+    (hl : 0 < b.limit) (pre : List BEv) (now : Nat)
+    (hmono : (b.updated :: (pre.map BEv.time ++ [now])).Pairwise (· ≤ ·))
+    (hidle : ∀ t ∈ b.admittedEv pre, t + b.ticks * b.res ≤ now) :
+    ((b.afterEv pre).call now).2 = true := by
+  obtain ⟨hR, hL, hu, e1, e2, e3⟩ := ghost_before_call b hz ht hr pre now hmono
+  rw [(call_refines _ _ hR now).2]
   simp only [decide_eq_true_eq]
-  have hl : (((ghost0 b).run pre).slide now).limit = b.limit := by
-    show ((ghost0 b).run pre).limit = b.limit
-    rw [← hA.limit, after_limit]
-  rw [hl]
-  have h0 : (ghost0 b).adm = [] := rfl
-  rw [h0] at hadm
-  unfold OB.admitted at hfew
-  rw [hadm] at hfew
+  have h0 := ghost_idle_total _ now hL (by rw [e1]; exact hr) hu (by
+    intro t htm
+    rw [← admittedEv_ghost b hz ht] at htm
+    have := hidle t htm
+    simpa [G.W, e1, e2] using this)
+  rw [h0]
+  show 0 < ((ghost0 b).run pre).limit
+  rw [e3]; exact hl
+
+/-- **graded recovery**: a call is admitted when fewer than `limit` earlier admissions are younger than their graded
+window (`W + j·(res-1)` for the `j`-th newest) -/
+theorem recovers_graded_counts (b : OB) (hz : b.counts = List.replicate b.ticks 0) (ht : 0 < b.ticks) (hr : 0 < b.res)
+    (pre : List BEv) (now : Nat)
+    (hmono : (b.updated :: (pre.map BEv.time ++ [now])).Pairwise (· ≤ ·))
+    (hfew : gradedCount (b.ticks * b.res) (b.res - 1) now 0 (b.admittedEv pre) < b.limit) :
+    ((b.afterEv pre).call now).2 = true := by
+  obtain ⟨hR, hL, hu, e1, e2, e3⟩ := ghost_before_call b hz ht hr pre now hmono
+  rw [(call_refines _ _ hR now).2]
+  simp only [decide_eq_true_eq]
+  have hg := ghost_graded_total _ now hL (by rw [e1]; exact hr) hu
+  rw [admittedEv_ghost b hz ht] at hfew
+  have hW : ((ghost0 b).run pre).W = b.ticks * b.res := by simp [G.W, e1, e2]
+  rw [hW, e1] at hg
+  show (((ghost0 b).run pre).slide now).total < ((ghost0 b).run pre).limit
+  rw [e3]
   exact Nat.lt_of_le_of_lt hg hfew
 
 theorem pollEvery_length (t0 δ n : Nat) : (pollEvery t0 δ n).length = n := by
   induction n generalizing t0 with
   | zero => rfl
   | succ n ih => simp [pollEvery, ih]
-
-theorem pollEvery_fast (res t0 δ n : Nat) (h : δ < res) : FastPolled res t0 (pollEvery t0 δ n) := by
-  induction n generalizing t0 with
-  | zero => trivial
-  | succ n ih => exact ⟨by omega, by omega, ih _⟩
 
 theorem pollEvery_mono (t0 δ n : Nat) : (t0 :: pollEvery t0 δ n).Pairwise (· ≤ ·) := by
   induction n generalizing t0 with
@@ -575,24 +474,28 @@ theorem pollEvery_mono (t0 δ n : Nat) : (t0 :: pollEvery t0 δ n).Pairwise (· 
     · have := this.1 a ha; omega
 
 theorem init_fields (limit interval : Nat) :
-    (OB.init limit interval).counts = List.replicate (OB.init limit interval).counts.length 0 ∧
+    (OB.init limit interval).counts = List.replicate (OB.init limit interval).ticks 0 ∧
     (OB.init limit interval).counts.length = breakerTicks ∧ (OB.init limit interval).ticks = breakerTicks ∧
     (OB.init limit interval).res = interval / breakerTicks ∧ (OB.init limit interval).limit = limit ∧
     (OB.init limit interval).updated = 0 := by
   simp [OB.init, OB.res, resolution, initTicks]
 
-/-- a fresh breaker polled with every gap shorter than a tick admits exactly the first `limit` calls, for ever -/
-theorem fast_poll_general (limit interval t0 : Nat) (rest : List Nat)
-    (hf : FastPolled (interval / breakerTicks) t0 rest) :
-    ((OB.init limit interval).admitted (t0 :: rest)).length = min (rest.length + 1) limit := by
-  obtain ⟨hz, hlen, _, hres, hlim, _⟩ := init_fields limit interval
-  have hl : 0 < (OB.init limit interval).counts.length := by rw [hlen]; decide
-  have hc := call_fresh (OB.init limit interval) t0 hz hl
-  unfold OB.admitted
-  simp only [OB.admitted.go]
-  have hl' : 0 < ((OB.init limit interval).call t0).1.counts.length := by rw [call_counts_length]; exact hl
-  rw [admitted_fast _ _ _ hl' (by rw [call_res, call_updated, hres]; exact hf), hc.1, hc.2, call_limit, hlim]
-  by_cases h0 : 0 < limit
-  · simp only [h0, decide_true, if_true, List.length_cons, List.length_nil]; omega
-  · simp only [h0, decide_false, if_false]
-    simp only [Bool.false_eq_true, if_false, List.length_nil]; omega
+/-- what `NewOutboundBreaker` accepts: `limit ≥ 1` and `interval ≥ breakerTicks` nanoseconds -/
+theorem initE_some (limit interval : Int) (b : OB) (h : OB.initE limit interval = some b) :
+    1 ≤ limit ∧ (breakerTicks : Int) ≤ interval ∧ b = OB.init limit.toNat interval.toNat := by
+  unfold OB.initE at h
+  split at h
+  · exact absurd h (by simp)
+  · rename_i hrej
+    simp only [initRejects, Bool.or_eq_true, decide_eq_true_eq, not_or, Int.not_lt] at hrej
+    exact ⟨hrej.1, hrej.2, (Option.some.inj h).symm⟩
+
+theorem init_res_pos (limit interval : Int) (b : OB) (h : OB.initE limit interval = some b) :
+    0 < b.res ∧ 0 < b.ticks ∧ 0 < b.limit ∧ b.counts = List.replicate b.ticks 0 ∧ b.counts.length = breakerTicks := by
+  obtain ⟨h1, h2, rfl⟩ := initE_some limit interval b h
+  obtain ⟨hz, hlen, hticks, hres, hlim, _⟩ := init_fields limit.toNat interval.toNat
+  refine ⟨?_, by rw [hticks]; decide, by rw [hlim]; omega, hz, hlen⟩
+  rw [hres]
+  apply Nat.div_pos _ (by decide)
+  have : (breakerTicks : Int) ≤ (interval.toNat : Int) := by rw [Int.toNat_of_nonneg (by simp [breakerTicks] at h2 ⊢; omega)]; exact h2
+  exact Int.ofNat_le.mp this
